@@ -3,6 +3,7 @@
 import os
 import random
 
+from .. import suiteengine
 from ..common import STORE_ALGOS, new_scratch, rmtree, split_seeds, clear_atexit_tmp_handlers
 from ..gen import make_content, random_object_op, random_meta_op, op_shape, boundary_sizes
 from ..runner import ShardResult
@@ -30,7 +31,7 @@ SHAPES = [(3, 2), (1, 1), (2, 4)]
 def shards(tier, seed):
     n_shards = 16
     per = 100 if tier == "quick" else 1900
-    return [(s, per, i) for i, s in enumerate(split_seeds(seed * 1000 + 1, n_shards))]
+    return [(s, per, i) for i, s in enumerate(split_seeds(seed * 1000 + 1, n_shards))] + [("suite", 0, -1)]
 
 
 def min_required(tier):
@@ -120,8 +121,11 @@ def episode(rng, scratch, res, idx, force=None):
 
 
 def run_shard(sub_seed, n, shard_idx):
-    rng = random.Random(sub_seed)
     res = ShardResult()
+    if sub_seed == "suite":
+        suiteengine.run(res, ID)
+        return res
+    rng = random.Random(sub_seed)
     scratch = new_scratch("c01")
     try:
         # a systematic sweep first so that every (kind, offset) x algorithm and every boundary size is
